@@ -120,29 +120,36 @@ Section Generic.
 End Generic.
 
 Arguments mk_obj {D P V}.
+Arguments o_dim {D P V}. Arguments o_dict {D P V}. Arguments o_shimmed {D P V}. Arguments o_cache {D P V}.
+Arguments s_dicts {D X P V}. Arguments s_objs {D X P V}.
 Arguments mk_state {D X P V}.
 Arguments New {D P}.
 Arguments Read {D P}.
 
 (* ---- instance: array dimensions (Model/Shim.v) ------------------------------------------- *)
 (* properties a partition reads from the transforms of an array dimension *)
-Inductive aprop : Type := PElem (k : nat) | POrder | PTop | PBottom.
+(* PElems: Dimension.all_elements (the transform payload of every element, computed and cached
+   together); POrder / PTop / PBottom: order_spec.element_ids / top_fixed_ids / bottom_fixed_ids *)
+Inductive aprop : Type := PElems | POrder | PTop | PBottom.
 Definition aprop_eqb (a b : aprop) : bool :=
   match a, b with
-  | PElem j, PElem k => Nat.eqb j k
-  | POrder, POrder | PTop, PTop | PBottom, PBottom => true
+  | PElems, PElems | POrder, POrder | PTop, PTop | PBottom, PBottom => true
   | _, _ => false
   end.
-Inductive aval : Type := VElem (o : option eval) | VItems (l : list nat).
+Inductive aval : Type := VElems (l : list (option eval)) | VItems (l : list nat).
 Definition acons (d : adim) (t : xf) (p : aprop) : aval :=
   match p with
-  | PElem k => VElem (elem_xform d (x_elements t) k)
+  | PElems => VElems (map (elem_xform d (x_elements t)) (seq 0 (List.length (d_items d))))
   | POrder => VItems (opt_mentions d (x_ids t))
   | PTop => VItems (opt_mentions d (x_top t))
   | PBottom => VItems (opt_mentions d (x_bottom t))
   end.
 Definition arun := run adim xf aprop aval shim_xf acons aprop_eqb (fun _ => true).
 Definition arun_pristine := run_pristine adim xf aprop aval shim_xf acons.
+(* content of the caller's dict i after the history *)
+Definition arun_dict (ts : nat -> xf) (ops : list (op adim aprop)) (i : nat) : xf :=
+  s_dicts (fst (fold_left (step adim xf aprop aval shim_xf acons aprop_eqb (fun _ => true)) ops
+                          (init adim xf aprop aval ts, []))) i.
 
 (* ---- Part 2: responses ------------------------------------------------------------------- *)
 (* what matters of a cube response for partitioning: its number of (apparent) dimensions.
